@@ -120,8 +120,14 @@ def conf_input(rng, j):
         for r in rows:
             r["rank"] = int(rng.integers(1, 25))
     dedup, rollup = [(True, True), (False, True), (True, False), (False, False)][j % 4]
+    if j % 3 == 2:
+        # exact ties inside spectra / entities: which of the tied PSMs is kept must not depend on the chunking either
+        # (on the pinned tree it does: known finding F-05c)
+        rows = rows[:14]
+        for r in rows:
+            r["rank"] = int(rng.integers(1, 5))
     return {"kind": "assign", "colls": [{"rows": rows}], "extra_levels": ["prec"], "dedup": dedup, "rollup": rollup,
-            "decoys": True}
+            "decoys": True, "ties": bool(j % 3 == 2)}
 
 
 def conf_configs(inp, rng, quick):
@@ -208,8 +214,13 @@ def run(ctx):
     nb, nc, npn = (6, 8, 12) if ctx.quick else (40, 40, 36)
     for j in range(nb):
         inp = brew_input(rng, j)
-        if j % 2:
+        if j % 4 == 1:
             inp["est"] = "proba"          # an estimator without decision_function (predict_proba only, no calibration)
+        if j % 4 == 3:
+            # a learner that is sensitive to the order of its training rows, with a training cap (the capped index list
+            # is in rng.choice order): the training matrix must not depend on how the file was read
+            inp["est"] = "order"
+            inp["cap"] = sum(len(f["rows"]) for f in inp["files"]) // 2
         for learner in ((None,) if j % 3 else (None, "lr")):
             g = len(groups)
             groups.append({"kind": "brew", "input": inp, "learner": learner, "tol": 2 if (learner or inp.get("est") == "proba") else 0})
@@ -276,7 +287,7 @@ def run(ctx):
             ctx.reject({"group": G, "runs": [t["runs"][0]] + bad}, v["failed"],
                        {"api": {"brew": "brew", "conf": "assign_confidence", "pin": "read_pin"}[G["kind"]], "learner": G["learner"],
                         "differing_cfgs": [b["cfg"] for b in bad], "raised": sorted({b["raised"].split(":")[0] for b in bad if b["raised"]}),
-                        "input_seed": G["input"].get("seed"), "nfeat": G["input"].get("nfeat"),
+                        "input_seed": G["input"].get("seed"), "nfeat": G["input"].get("nfeat"), "ties": bool(G["input"].get("ties", False)),
                         "flags": [G["input"].get("dedup"), G["input"].get("rollup")]})
     ctx.phase("negative_controls")
     bad = []
